@@ -348,6 +348,7 @@ def handle (op : String) (payload : Str) (args : List String) : String :=
     match buildMasterScript payload with
     | some r => masterOp r true
     | none => "bad-op"
+  else if op == "cmp_holes" then "unsupported"     -- the model's segment list has no empty slots (implementation-side oracle only)
   else if op == "owned_build_media" then
     match buildMediaScript payload with
     | some (.ok p) => "ok " ++ Obs.media p ++ " O:111 C:111"
